@@ -130,6 +130,8 @@ type Job struct {
 	Pre         int      `json:"pre,omitempty"`           // bytes of unrelated content already stored at the output path before the call
 	Share       bool     `json:"share,omitempty"`         // take the renderer value (and, in single-job groups, the model object) from the episode's pool, as a program that keeps them in variables does
 	CloseAt     []int    `json:"close_at,omitempty"`      // single producer: call Close() before these batch indices (mid-stream flush)
+	Reuse       bool     `json:"reuse,omitempty"`         // scripted renderers: batches are written from one scratch slice that is overwritten once Write has returned
+	CloseTwice  bool     `json:"close_twice,omitempty"`   // scripted renderers: Close is called twice at the end
 	EvalStallMs int      `json:"eval_stall_ms,omitempty"` // real renderers: the EvalStallAt-th evaluation takes this long in real time
 	EvalStallAt int      `json:"eval_stall_at,omitempty"`
 	Fresh       bool     `json:"fresh,omitempty"`  // eval family: the callers mostly query points nobody has queried before
@@ -174,7 +176,7 @@ type JobResult struct {
 	AtEnd      *Check  `json:"at_end,omitempty"`
 	Digest     string  `json:"digest,omitempty"`
 	DigestRet  string  `json:"digest_at_return,omitempty"` // C09: digest of the sink the moment the call returned
-	Digest2    string  `json:"digest_no_owner,omitempty"` // DXF: digest with owner handles (group 330) blanked
+	Digest2    string  `json:"digest_no_owner,omitempty"`  // DXF: digest with owner handles (group 330) blanked
 	Items      int     `json:"items,omitempty"`
 	FaultFired bool    `json:"fault_fired,omitempty"`
 	FaultNote  string  `json:"fault_note,omitempty"`
